@@ -1,0 +1,136 @@
+//go:build verif
+
+package disjoint
+
+// Contracts for the verification machinery in /verif (comment-only file; no code).
+//
+// Ghost state attached to the backing array of a Set:
+//   rep(ds)[x]   the current representative (root) of x
+//   rk(ds)[x]    the rank of x (height bound; for a root it is -ds[x]-1)
+//   bound(ds)    an upper bound on all ranks (for the termination of Find)
+
+//@ ghostarray rep(s []int) int
+//@ ghostarray rk(s []int) int
+//@ ghostval bound(s []int) int
+
+//@ pred wfRange(ds []int) = forall x in 0..len(ds): ds[x] < len(ds) && 0 <= rk(ds)[x] && rk(ds)[x] <= bound(ds) && 0 <= rep(ds)[x] && rep(ds)[x] < len(ds)
+//@ pred wfRepRoot(ds []int) = forall x in 0..len(ds): ds[rep(ds)[x]] < 0
+//@ pred wfRoot(ds []int) = forall x in 0..len(ds): ds[x] < 0 ==> rep(ds)[x] == x && rk(ds)[x] == -ds[x]-1
+//@ pred wfChild(ds []int) = forall x in 0..len(ds): ds[x] >= 0 ==> rep(ds)[x] == rep(ds)[ds[x]] && rk(ds)[ds[x]] > rk(ds)[x]
+//@ pred wf(ds []int) = wfRange(ds) && wfRepRoot(ds) && wfRoot(ds) && wfChild(ds)
+
+//@ func New
+//@   requires 0 <= n
+//@   ensures len(result) == n && fresh(result) && wf(result)
+//@   ensures forall x in 0..n: rep(result)[x] == x
+//@   ghost at exit: rep(result) := map z: z
+//@   ghost at exit: rk(result) := map z: 0
+//@   ghost at exit: bound(result) := 0
+//@   loop 1
+//@     invariant -1 <= rangeindex && (rangeindex < len(ds) || (len(ds) == 0 && rangeindex == -1)) && len(ds) == n
+//@     invariant forall t in 0..rangeindex+1: ds[t] == -1
+//@     decreases len(ds) - rangeindex
+
+//@ func (*Set).Find
+//@   requires wf(*dsPtr) && 0 <= x && x < len(*dsPtr)
+//@   modifies *dsPtr
+//@   ensures wf(*dsPtr) && result == rep(*dsPtr)[x]
+//@   ensures forall z in 0..len(*dsPtr): old(*dsPtr)[z] < 0 ==> (*dsPtr)[z] == old(*dsPtr)[z]
+//@   loop 1
+//@     invariant len(seenNumbers) >= 1 && currentPlace == seenNumbers[len(seenNumbers)-1]
+//@     invariant forall t in 0..len(seenNumbers): 0 <= seenNumbers[t] && seenNumbers[t] < len(ds) && rep(ds)[seenNumbers[t]] == rep(ds)[x]
+//@     invariant forall t in 0..len(seenNumbers)-1: rk(ds)[seenNumbers[t]] < rk(ds)[currentPlace]
+//@     decreases bound(ds) - rk(ds)[currentPlace]
+//@   loop 2
+//@     invariant 0 <= i && tmp == rep(ds)[x] && 0 <= tmp && tmp < len(ds) && ds[tmp] < 0 && len(seenNumbers) >= 1 && tmp == seenNumbers[len(seenNumbers)-1]
+//@     invariant wfRange(ds)
+//@     invariant wfRepRoot(ds)
+//@     invariant wfRoot(ds)
+//@     invariant wfChild(ds)
+//@     invariant forall t in 0..len(seenNumbers): 0 <= seenNumbers[t] && seenNumbers[t] < len(ds) && rep(ds)[seenNumbers[t]] == tmp
+//@     invariant forall t in 0..len(seenNumbers)-1: rk(ds)[seenNumbers[t]] < rk(ds)[tmp]
+//@     invariant forall z in 0..len(ds): old(*dsPtr)[z] < 0 ==> ds[z] == old(*dsPtr)[z]
+//@     decreases len(seenNumbers) - i
+
+//@ func (*Set).FindBuffered
+//@   requires wf(*dsPtr) && 0 <= x && x < len(*dsPtr)
+//@   requires cap(buf) >= 1 && ref(buf) != ref(*dsPtr)
+//@   modifies *dsPtr, buf
+//@   ensures wf(*dsPtr) && result == rep(*dsPtr)[x]
+//@   ensures forall z in 0..len(*dsPtr): old(*dsPtr)[z] < 0 ==> (*dsPtr)[z] == old(*dsPtr)[z]
+//@   loop 1
+//@     invariant len(seenNumbers) >= 1 && currentPlace == seenNumbers[len(seenNumbers)-1] && ref(seenNumbers) != ref(ds)
+//@     invariant forall t in 0..len(seenNumbers): 0 <= seenNumbers[t] && seenNumbers[t] < len(ds) && rep(ds)[seenNumbers[t]] == rep(ds)[x]
+//@     invariant forall t in 0..len(seenNumbers)-1: rk(ds)[seenNumbers[t]] < rk(ds)[currentPlace]
+//@     decreases bound(ds) - rk(ds)[currentPlace]
+//@   loop 2
+//@     invariant 0 <= i && tmp == rep(ds)[x] && 0 <= tmp && tmp < len(ds) && ds[tmp] < 0 && len(seenNumbers) >= 1 && tmp == seenNumbers[len(seenNumbers)-1]
+//@     invariant wfRange(ds)
+//@     invariant wfRepRoot(ds)
+//@     invariant wfRoot(ds)
+//@     invariant wfChild(ds)
+//@     invariant forall t in 0..len(seenNumbers): 0 <= seenNumbers[t] && seenNumbers[t] < len(ds) && rep(ds)[seenNumbers[t]] == tmp
+//@     invariant forall t in 0..len(seenNumbers)-1: rk(ds)[seenNumbers[t]] < rk(ds)[tmp]
+//@     invariant forall z in 0..len(ds): old(*dsPtr)[z] < 0 ==> ds[z] == old(*dsPtr)[z]
+//@     decreases len(seenNumbers) - i
+
+// same(a,b) after Union(x,y)  <==>  same(a,b) before, or a and b were in the two merged classes
+//@ func (*Set).Union
+//@   requires wf(*dsPtr) && 0 <= x && x < len(*dsPtr) && 0 <= y && y < len(*dsPtr)
+//@   requires bound(*dsPtr) < 4611686018427387904
+//@   modifies *dsPtr, rep(*dsPtr), rk(*dsPtr), bound(*dsPtr)
+//@   ensures wfRange(*dsPtr)
+//@   ensures wfRepRoot(*dsPtr)
+//@   ensures wfRoot(*dsPtr)
+//@   ensures wfChild(*dsPtr)
+//@   ensures bound(*dsPtr) == old(bound(*dsPtr)) + 1
+//@   ensures forall a in 0..len(*dsPtr): forall b in 0..len(*dsPtr): (rep(*dsPtr)[a] == rep(*dsPtr)[b]) <==> (old(rep(*dsPtr))[a] == old(rep(*dsPtr))[b] || (old(rep(*dsPtr))[a] == old(rep(*dsPtr))[x] && old(rep(*dsPtr))[b] == old(rep(*dsPtr))[y]) || (old(rep(*dsPtr))[a] == old(rep(*dsPtr))[y] && old(rep(*dsPtr))[b] == old(rep(*dsPtr))[x]))
+//@   ghost at exit: rep(*dsPtr) := map z: (old(rep(*dsPtr))[x] == old(rep(*dsPtr))[y] ? old(rep(*dsPtr))[z] : (old(rk(*dsPtr))[old(rep(*dsPtr))[x]] > old(rk(*dsPtr))[old(rep(*dsPtr))[y]] ? (old(rep(*dsPtr))[z] == old(rep(*dsPtr))[y] ? old(rep(*dsPtr))[x] : old(rep(*dsPtr))[z]) : (old(rep(*dsPtr))[z] == old(rep(*dsPtr))[x] ? old(rep(*dsPtr))[y] : old(rep(*dsPtr))[z])))
+//@   ghost at exit: rk(*dsPtr)[old(rep(*dsPtr))[y]] := ((old(rep(*dsPtr))[x] != old(rep(*dsPtr))[y] && old(rk(*dsPtr))[old(rep(*dsPtr))[x]] == old(rk(*dsPtr))[old(rep(*dsPtr))[y]]) ? old(rk(*dsPtr))[old(rep(*dsPtr))[y]] + 1 : old(rk(*dsPtr))[old(rep(*dsPtr))[y]])
+//@   ghost at exit: bound(*dsPtr) := old(bound(*dsPtr)) + 1
+
+//@ func (*Set).UnionBuffered
+//@   requires wf(*dsPtr) && 0 <= x && x < len(*dsPtr) && 0 <= y && y < len(*dsPtr)
+//@   requires bound(*dsPtr) < 4611686018427387904
+//@   requires cap(buf) >= 1 && ref(buf) != ref(*dsPtr)
+//@   modifies buf, *dsPtr, rep(*dsPtr), rk(*dsPtr), bound(*dsPtr)
+//@   ensures wfRange(*dsPtr)
+//@   ensures wfRepRoot(*dsPtr)
+//@   ensures wfRoot(*dsPtr)
+//@   ensures wfChild(*dsPtr)
+//@   ensures bound(*dsPtr) == old(bound(*dsPtr)) + 1
+//@   ensures forall a in 0..len(*dsPtr): forall b in 0..len(*dsPtr): (rep(*dsPtr)[a] == rep(*dsPtr)[b]) <==> (old(rep(*dsPtr))[a] == old(rep(*dsPtr))[b] || (old(rep(*dsPtr))[a] == old(rep(*dsPtr))[x] && old(rep(*dsPtr))[b] == old(rep(*dsPtr))[y]) || (old(rep(*dsPtr))[a] == old(rep(*dsPtr))[y] && old(rep(*dsPtr))[b] == old(rep(*dsPtr))[x]))
+//@   ghost at exit: rep(*dsPtr) := map z: (old(rep(*dsPtr))[x] == old(rep(*dsPtr))[y] ? old(rep(*dsPtr))[z] : (old(rk(*dsPtr))[old(rep(*dsPtr))[x]] > old(rk(*dsPtr))[old(rep(*dsPtr))[y]] ? (old(rep(*dsPtr))[z] == old(rep(*dsPtr))[y] ? old(rep(*dsPtr))[x] : old(rep(*dsPtr))[z]) : (old(rep(*dsPtr))[z] == old(rep(*dsPtr))[x] ? old(rep(*dsPtr))[y] : old(rep(*dsPtr))[z])))
+//@   ghost at exit: rk(*dsPtr)[old(rep(*dsPtr))[y]] := ((old(rep(*dsPtr))[x] != old(rep(*dsPtr))[y] && old(rk(*dsPtr))[old(rep(*dsPtr))[x]] == old(rk(*dsPtr))[old(rep(*dsPtr))[y]]) ? old(rk(*dsPtr))[old(rep(*dsPtr))[y]] + 1 : old(rk(*dsPtr))[old(rep(*dsPtr))[y]])
+//@   ghost at exit: bound(*dsPtr) := old(bound(*dsPtr)) + 1
+
+//@ func (*Set).Roots
+//@   requires wf(*dsPtr)
+//@   ensures fresh(result)
+//@   ensures forall k in 0..len(result): 0 <= result[k] && result[k] < len(*dsPtr) && rep(*dsPtr)[result[k]] == result[k]
+//@   ensures forall k in 0..len(result): forall j in k+1..len(result): result[k] < result[j]
+//@   ensures forall x in 0..len(*dsPtr): exists k in 0..len(result): result[k] == rep(*dsPtr)[x]
+//@   loop 1
+//@     invariant -1 <= rangeindex && (rangeindex < len(ds) || (len(ds) == 0 && rangeindex == -1))
+//@     invariant forall k in 0..len(roots): 0 <= roots[k] && roots[k] <= rangeindex && ds[roots[k]] < 0
+//@     invariant forall k in 0..len(roots): forall j in k+1..len(roots): roots[k] < roots[j]
+//@     invariant forall x in 0..rangeindex+1: ds[x] < 0 ==> exists k in 0..len(roots): roots[k] == x
+//@     decreases len(ds) - rangeindex
+
+//@ func (*Set).SmallestRep
+//@   requires wf(*dsPtr)
+//@   modifies *dsPtr
+//@   ensures wf(*dsPtr) && fresh(result) && len(result) == len(*dsPtr)
+//@   ensures forall t in 0..len(result): 0 <= result[t] && result[t] <= t && rep(*dsPtr)[result[t]] == rep(*dsPtr)[t]
+//@   ensures forall t in 0..len(result): forall j in 0..result[t]: rep(*dsPtr)[j] != rep(*dsPtr)[t]
+//@   loop 1
+//@     invariant 0 <= i && i <= len(*dsPtr) && len(sr) == len(*dsPtr) && wf(*dsPtr) && fresh(sr)
+//@     invariant forall t in 0..i: 0 <= sr[t] && sr[t] <= t && rep(*dsPtr)[sr[t]] == rep(*dsPtr)[t]
+//@     invariant forall t in 0..i: forall j in 0..sr[t]: rep(*dsPtr)[j] != rep(*dsPtr)[t]
+//@     decreases len(*dsPtr) - i
+//@   loop 2
+//@     invariant 0 <= j && j <= i && i < len(*dsPtr) && len(sr) == len(*dsPtr) && wf(*dsPtr) && fresh(sr)
+//@     invariant forall t in 0..i: 0 <= sr[t] && sr[t] <= t && rep(*dsPtr)[sr[t]] == rep(*dsPtr)[t]
+//@     invariant forall t in 0..i: forall j in 0..sr[t]: rep(*dsPtr)[j] != rep(*dsPtr)[t]
+//@     invariant forall t in 0..j: rep(*dsPtr)[t] != rep(*dsPtr)[i]
+//@     decreases i - j
